@@ -303,13 +303,36 @@ class NumpyModel:
             lo = 0
         if hi is NONE or hi is None:
             hi = n
-        if is_concrete(lo) and lo < 0:
+        lo0_neg = is_concrete(lo) and lo < 0
+        hi0_neg = is_concrete(hi) and hi < 0
+        if lo0_neg:
             lo = num_add(n, lo)
-        if is_concrete(hi) and hi < 0:
+        if hi0_neg:
             hi = num_add(n, hi)
-        self.oblige(st, mk_and(num_cmp("<=", 0, lo), num_cmp("<=", lo, hi), num_cmp("<=", hi, n)), "lib",
-                    f"{what}: slice inside the array (0 <= start <= stop <= len, no truncation)", node)
-        return lo, hi
+        neg_const = (lo0_neg, hi0_neg)
+        strict = mk_and(num_cmp("<=", 0, lo), num_cmp("<=", lo, hi), num_cmp("<=", hi, n))
+        if strict is True:
+            return lo, hi
+        spec_node = node is not None and (getattr(node, "_spec", False) or getattr(node, "_ghost", False))
+        if spec_node or (strict is not False and self.slice_in_range(st, strict)):
+            # the common case: the slice provably lies inside the array -> plain bounds, recorded as an obligation
+            self.oblige(st, strict, "lib", f"{what}: slice inside the array (0 <= start <= stop <= len, no truncation)", node)
+            return lo, hi
+        # python / numpy semantics: out-of-range slice bounds are clamped silently. Symbolic bounds must be non-negative (a negative value would
+        # wrap around: excluded by C13); negative literals were resolved against len above and clamp at 0.
+        for v, was_neg in ((lo, lo0_neg), (hi, hi0_neg)):
+            if not was_neg:
+                self.oblige(st, num_cmp("<=", 0, v), "lib", f"{what}: slice bound is non-negative (no wrap-around)", node)
+        lo2 = num_min(num_max(lo, 0), n)
+        hi2 = num_max(num_min(num_max(hi, 0), n), lo2)
+        return lo2, hi2
+
+    def slice_in_range(self, st, strict):
+        from .solve import quick_valid
+        try:
+            return quick_valid(list(st.pc), zbool(strict), timeout=2.0)
+        except Exception:
+            return False
 
     def index_arr(self, st, a: Arr, key, node):
         """a[key]; key already evaluated: scalar | ('slice', lo, hi, step) | Arr | Lst | tuple of those."""
